@@ -205,6 +205,21 @@ func linearLoc(v ssa.Value) linform {
 // expr = X - Y (or just X), with a dominating guard "X >= Z" (edge of a comparison of the same
 // location X), gives expr >= Z - Y when that difference is a constant.
 func lowerBound(fn *ssa.Function, at ssa.Instruction, expr ssa.Value) (int64, bool) {
+	a, okA := lowerBoundLoc(fn, at, expr)
+	b, okB := provenLower(at, expr)
+	switch {
+	case okA && okB:
+		if b > a {
+			return b, true
+		}
+		return a, true
+	case okB:
+		return b, true
+	}
+	return a, okA
+}
+
+func lowerBoundLoc(fn *ssa.Function, at ssa.Instruction, expr ssa.Value) (int64, bool) {
 	e := linearLoc(expr)
 	if !e.ok {
 		return 0, false
